@@ -66,7 +66,12 @@ def check(prop: str, tier: str, root: str = REPO) -> int:
         f"{len(ctx.obligations)} rule instances over rules {','.join(ctx.rules_run)}; "
         f"{sum(1 for o in ctx.obligations if o['ok'])} hold, {len(known_hit)} known findings, {len(new)} new violations; "
         f"{wall:.2f}s"
+        + (f"; self-test variants applied {selftest['variants_applied']}, skipped {selftest['variants_skipped']}" if selftest else "")
     )
+    if selftest:
+        for d in selftest["details"]:
+            if d["status"].startswith(("skipped", "inconclusive")):
+                print(f"  self-test note: {d['variant']}: {d['status']}")
     if new:
         for i, f in enumerate(new):
             path = write_replay(prop, i, f)
